@@ -557,6 +557,10 @@ func (w *messageWriter) endMessage(err error) error {
 	c := w.c
 	w.err = err
 	c.writer = nil
+	if len(c.writeBuf) > c.writeBufSize {
+		// the buffer was grown for a large message: do not keep it
+		c.writeBuf = make([]byte, c.writeBufSize)
+	}
 	if c.writePool != nil {
 		c.writePool.Put(writePoolData{buf: c.writeBuf})
 		c.writeBuf = nil
@@ -621,12 +625,27 @@ func (w *messageWriter) flushFrame(final bool, extra []byte) error {
 	return nil
 }
 
+// grow makes room for at least n more bytes. The frame header carries the
+// length of the whole message and the format has no continuation frames, so a
+// message is buffered until it is complete and then written as one frame.
+func (w *messageWriter) grow(n int) {
+	c := w.c
+	if len(c.writeBuf)-w.pos >= n {
+		return
+	}
+	size := 2 * len(c.writeBuf)
+	if size < w.pos+n {
+		size = w.pos + n
+	}
+	buf := make([]byte, size)
+	copy(buf, c.writeBuf[:w.pos])
+	c.writeBuf = buf
+}
+
 func (w *messageWriter) ncopy(max int) (int, error) {
 	n := len(w.c.writeBuf) - w.pos
 	if n <= 0 {
-		if err := w.flushFrame(false, nil); err != nil {
-			return 0, err
-		}
+		w.grow(max)
 		n = len(w.c.writeBuf) - w.pos
 	}
 	if n > max {
@@ -638,15 +657,6 @@ func (w *messageWriter) ncopy(max int) (int, error) {
 func (w *messageWriter) Write(p []byte) (int, error) {
 	if w.err != nil {
 		return 0, w.err
-	}
-
-	if len(p) > 2*len(w.c.writeBuf) && w.c.isServer {
-		// Don't buffer large messages.
-		err := w.flushFrame(false, p)
-		if err != nil {
-			return 0, err
-		}
-		return len(p), nil
 	}
 
 	nn := len(p)
@@ -686,10 +696,7 @@ func (w *messageWriter) ReadFrom(r io.Reader) (nn int64, err error) {
 	}
 	for {
 		if w.pos == len(w.c.writeBuf) {
-			err = w.flushFrame(false, nil)
-			if err != nil {
-				break
-			}
+			w.grow(len(w.c.writeBuf))
 		}
 		var n int
 		n, err = r.Read(w.c.writeBuf[w.pos:])
